@@ -144,7 +144,7 @@ def part_lexer_corr(ctx, part):
     g = json.load(open(os.path.join(C.BUILD, "gen.json")))
     PARSER_PUNCTS = set(g["parser_puncts"])
     inputs = gen_inputs(ctx)
-    outs = C.vh_batch([{"op": "lex", "b64": base64.b64encode(b).decode(), "max": 3 * len(b) + 16} for b in inputs])
+    outs = C.vh_batch([{"op": "lex", "b64": base64.b64encode(b).decode(), "max": 3 * len(b) + 20} for b in inputs])
     terms, kept = [], []
     for b, o in zip(inputs, outs):
         part.evaluations += 1
@@ -168,8 +168,8 @@ def part_lexer_corr(ctx, part):
         if o["end"] == "error":
             part.failures.append(Failure("read_error", "parser.Read answers `read error` on %r" % b[:80],
                                          {"b64": base64.b64encode(b).decode()}))
-        if ntok > 3 * len(o["runes"] or []) + 1:
-            part.failures.append(Failure("token_bound", "more than 3n+1 tokens on %r" % b[:80],
+        if ntok > 3 * len(o["runes"] or []) + 3:
+            part.failures.append(Failure("token_bound", "more than 3n+3 tokens on %r" % b[:80],
                                          {"b64": base64.b64encode(b).decode()}))
         ot = obs_term(o["toks"], o["end"])
         if ot is None:
@@ -179,7 +179,7 @@ def part_lexer_corr(ctx, part):
         terms.append("(%s, %s)" % (coq_runes(runes), ot))
         kept.append(b)
         part.sample({"input": b[:60].decode("utf-8", "replace"), "tokens": ntok, "end": o["end"]})
-    okf = ("fun c => let n := (3 * List.length (fst c) + 16)%%nat in "
+    okf = ("fun c => let n := (3 * List.length (fst c) + 20)%%nat in "
            "match read_all go_is_space go_is_digit go_is_upper go_is_lower %s [] n n (ps_new (fst c)) with "
            "| Some l => obs_eqb l (snd c) | None => false end" % VARIANT)
     bad = corr.coq_mismatches(["Model.Parser", "Generated"], "list N * list (read_result * Z * Z)", okf, terms, chunk=250)
